@@ -117,7 +117,12 @@ def run(spec):
                 zg = z_lo + (j + u) * s * 0.999
             if z_lo < zg < z_hi:
                 pos.append(zg)
-        pos = sorted(set(pos))
+        # the list is stored as typed: ascending, or in the order drawn (grids counted once "in any order")
+        uniq = []
+        for zg in pos:
+            if zg not in uniq:
+                uniq.append(zg)
+        pos = uniq if sg.pop("_as_drawn", False) else sorted(uniq)
         if pos:
             sg["axial_positions"] = pos
         else:
@@ -167,7 +172,8 @@ def run(spec):
                 % (s, ref, s * mult, total, results[0][2]["spacer_grid"], got["spacer_grid"]))
     m = spec["_meta"]["A"]
     o.classes.update({"n_ring": m["n_ring"], "friction": a["corr_friction"], "grids": len((a.get("SpacerGrid") or {}).get("axial_positions", [])),
-                      "grid_on_plane": on_plane and "SpacerGrid" in a, "gravity": bool(spec["setup"].get("include_gravity_head_loss")),
+                      "grid_on_plane": on_plane and "SpacerGrid" in a,
+                      "grids_ascending": list((a.get("SpacerGrid") or {}).get("axial_positions", [])) == sorted((a.get("SpacerGrid") or {}).get("axial_positions", [])), "gravity": bool(spec["setup"].get("include_gravity_head_loss")),
                       "regions": 1 + len(a.get("AxialRegion") or {}), "lowfi": bool(a.get("use_low_fidelity_model"))})
     o.nontrivial = (on_plane and "SpacerGrid" in a) or o.classes["regions"] >= 2
     return o
@@ -189,10 +195,11 @@ def cases(draw, q):
         else:
             sg["corr"] = draw(st.sampled_from(["REH", "CDD"]))
             sg["solidity"] = gen.r6(draw(gen.fl(0.1, 0.6)))
+        sg["_as_drawn"] = draw(st.booleans())
         a["SpacerGrid"] = sg
     return spec
 
 
 def parts(tier):
     q = tier == "quick"
-    return [Part("closed_form_and_step_independence", run, strategy=cases(q), examples=64 if q else 2000, timeout=180)]
+    return [Part("closed_form_and_step_independence", run, strategy=cases(q), examples=160 if q else 3000, timeout=180)]
